@@ -139,6 +139,44 @@ func special(b *bb) {
 		cj.close()
 	}
 
+	// 3b. the same live fence over WebSocket: every frame one JSON value, the first the live document
+	if ws, err := wsOpen(b.sa.Port, []string{"NEARBY", "livekey", "FENCE", "POINT", "10", "10", "10000"}); err == nil {
+		args := []string{"NEARBY", "livekey", "FENCE", "POINT", "10", "10", "10000"}
+		if _, payload, err := ws.readFrame(); err != nil {
+			b.wsFail("ws-frame-invalid", "live fence over websocket: "+err.Error(), args, nil, nil)
+		} else if d, sig, what := checkJSONDoc(string(payload)); sig != "" || !d.OK {
+			b.wsFail("ws-live-"+sig, "live fence over websocket, first frame: "+what+": "+trunc(string(payload), 200), args, string(payload), nil)
+		} else {
+			b.r.Count("special|ws-live", true)
+			if p, err := dialRaw(b.sa.Port); err == nil {
+				p.do("SET", "livekey", "w\"s\x01", "FIELD", "n", "2", "POINT", "10", "10")
+				if _, payload, err := ws.readFrame(); err != nil {
+					b.wsFail("ws-frame-invalid", "live fence event over websocket: "+err.Error(), args, nil, nil)
+				} else if !json.Valid(payload) || !utf8.Valid(payload) {
+					b.wsFail("ws-json-invalid", "live fence event over websocket is not a JSON value: "+trunc(string(payload), 200), args, string(payload), nil)
+				} else {
+					b.r.Count("special|ws-live-event", true)
+				}
+				p.do("DROP", "livekey")
+				p.close()
+			}
+		}
+		ws.close()
+	}
+
+	// 3c. and over the native framing
+	if c, err := dialRaw(b.sa.Port); err == nil {
+		args := []string{"NEARBY", "livekey", "FENCE", "POINT", "10", "10", "10000"}
+		if body, err := c.native(args...); err != nil {
+			b.fail("reply-missing", "live fence over the native framing: "+err.Error(), args, nil, nil)
+		} else if d, sig, what := checkJSONDoc(body); sig != "" || !d.OK {
+			b.fail("native-live-"+sig, "live fence over the native framing, first message: "+what+": "+trunc(body, 200), args, body, nil)
+		} else {
+			b.r.Count("special|native-live", true)
+		}
+		c.close()
+	}
+
 	// 4. QUIT: RESP mode answers +OK, both close
 	if c, err := dialRaw(b.sb.Port); err == nil {
 		v, err := c.do("QUIT")
